@@ -22,6 +22,7 @@ use crate::{
     },
 };
 
+use super::common::keyword_pair;
 use super::{
     asn1_type, asn1_value,
     common::{
@@ -112,7 +113,7 @@ pub fn type_identifier(input: Input<'_>) -> ParserResult<'_, ObjectClassDefn> {
 pub fn instance_of(input: Input<'_>) -> ParserResult<'_, ASN1Type> {
     map(
         preceded(
-            tag(INSTANCE_OF),
+            keyword_pair(INSTANCE_OF),
             pair(
                 skip_ws_and_comments(uppercase_identifier),
                 skip_ws_and_comments(opt(constraints)),
@@ -150,7 +151,7 @@ pub fn object_class_defn(input: Input<'_>) -> ParserResult<'_, ObjectClassDefn> 
                 skip_ws_and_comments(information_object_field),
                 optional_comma,
             ))),
-            opt(preceded(skip_ws_and_comments(tag(WITH_SYNTAX)), syntax)),
+            opt(preceded(skip_ws_and_comments(keyword_pair(WITH_SYNTAX)), syntax)),
         ),
     ))
     .parse(input)
